@@ -183,7 +183,7 @@ def traces_of(db, name, depth=0, inline=None, exc=None, lambdas=False, per_insta
     per_instance = per_instance or THOROUGH[0]
     if helpers:
         user = inline
-        depth = max(depth, 3)
+        depth = max(depth, 4)
         inline = lambda caller, ev, callee: bool(user and user(caller, ev, callee)) or is_helper(db, caller, callee)
     T = Tracer(db, depth=depth, inline_filter=inline, exc_edges=exc, limit=limit, maxvisit=maxvisit)
     T.closures_on_stack = bool(helpers)
@@ -489,7 +489,7 @@ def resume_functions(db, ctor_or_fn_name):
     return res
 
 
-def htracer(db, extra=None, exc=None, maxvisit=2, limit=20000, depth=3):
+def htracer(db, extra=None, exc=None, maxvisit=2, limit=20000, depth=4):
     """a Tracer that expands calls to helpers of the code under analysis (same class / local lambdas), plus what `extra` accepts"""
     T = Tracer(db, depth=depth, inline_filter=lambda caller, ev, callee: bool(extra and extra(caller, ev, callee)) or is_helper(db, caller, callee),
                exc_edges=exc, maxvisit=maxvisit, limit=limit)
